@@ -3,7 +3,8 @@
    A case is what the Go harness observed of one run of the real code on a
    root that contains symbolic links to a canary directory outside the root:
 
-     (root path, staging path, canary untouched?, which operation ran,
+     (root path, staging path, canary untouched and no data from it supplied?,
+      which operation ran,
       the path-taking system calls of that operation as strace printed them)
 
    Two kinds of cases: in-process canary runs (no system-call list: OpNone,
@@ -30,6 +31,7 @@ Local Open Scope string_scope.
 Inductive opdesc :=
 | OpNone
 | OpOpener (paths : list string)
+| OpTransmit (paths : list string)
 | OpScan (fuel : nat)
 | OpTransition (ownership links_ignored : bool) (rnds : list (list nat)) (cs : list change).
 
@@ -111,6 +113,7 @@ Definition replay_ok (root staging : string) (op : opdesc) (tr : list (prim * an
   match op with
   | OpNone => true
   | OpOpener paths => accepts (opener_open_files root new_opener paths) tr
+  | OpTransmit paths => accepts (transmit root paths) tr
   | OpScan fuel => accepts (scan root fuel) tr
   | OpTransition ownership li rnds cs => accepts (transition root staging ownership li rnds cs) tr
   end.
